@@ -192,12 +192,16 @@ impl Session {
                 .unwrap();
 
                 if !ignore_mac {
+                    // Once an answer did not fit, all later answers are dropped too, so that
+                    // the uplink carries a prefix of the answers in request order.
+                    let mut answers_full = false;
                     // MAC commands may be in the FHDR or the FRMPayload
                     self.handle_downlink_macs(
                         configuration,
                         region,
                         parse_downlink_mac_commands(decrypted.fhdr().f_opts()),
                         snr,
+                        &mut answers_full,
                     );
                     if let FrmPayload::MacCommands(mac_cmds) = decrypted.frm_payload() {
                         self.handle_downlink_macs(
@@ -205,6 +209,7 @@ impl Session {
                             region,
                             parse_downlink_mac_commands(mac_cmds),
                             snr,
+                            &mut answers_full,
                         );
                     }
                 }
@@ -381,6 +386,7 @@ impl Session {
         region: &mut region::Configuration,
         cmds: MacCommands<'_, DownlinkMacCommand<'_>>,
         snr: i8,
+        answers_full: &mut bool,
     ) {
         use DownlinkMacCommand::*;
         let mut channel_mask = region.channel_mask_get();
@@ -397,7 +403,7 @@ impl Session {
                     // For now we just return dummy value of "255"
                     let mut cmd = DevStatusAnsCreator::new();
                     let _ = cmd.set_battery(255).set_margin(snr);
-                    self.uplink.add_mac_command(cmd);
+                    push_answer(&mut self.uplink, answers_full, cmd);
                 }
                 DlChannelReq(payload) => {
                     if region.has_fixed_channel_plan() {
@@ -409,7 +415,7 @@ impl Session {
 
                     let mut cmd = DlChannelAnsCreator::new();
                     cmd.set_channel_frequency_ack(ack_f).set_uplink_frequency_exists_ack(ack_c);
-                    self.uplink.add_mac_command(cmd);
+                    push_answer(&mut self.uplink, answers_full, cmd);
                 }
                 LinkADRReq(payload) => {
                     // Contiguous LinkADRReq commands shall be processed in the
@@ -475,7 +481,7 @@ impl Session {
                         cmd.set_channel_mask_ack(cm_ack)
                             .set_data_rate_ack(dr.is_some())
                             .set_tx_power_ack(pw.is_some());
-                        self.uplink.add_mac_command(cmd);
+                        push_answer(&mut self.uplink, answers_full, cmd);
                     }
                     num_adrreq = 0;
                     rfu_ch_mask_cntl = false;
@@ -504,7 +510,7 @@ impl Session {
 
                     let mut cmd = NewChannelAnsCreator::new();
                     cmd.set_channel_frequency_ack(ack_f).set_data_rate_range_ack(ack_d);
-                    self.uplink.add_mac_command(cmd);
+                    push_answer(&mut self.uplink, answers_full, cmd);
                 }
                 RXParamSetupReq(payload) => {
                     let freq = payload.frequency().value();
@@ -534,7 +540,7 @@ impl Session {
                         .set_rx2_data_rate_ack(rx2_dr.is_some())
                         .set_channel_ack(freq_ack);
 
-                    self.uplink.add_mac_command(cmd);
+                    push_answer(&mut self.uplink, answers_full, cmd);
 
                     // TODO: An end-device that expects to receive Class C
                     // downlink frames will send an uplink frame as soon
@@ -543,11 +549,22 @@ impl Session {
                 }
                 RXTimingSetupReq(payload) => {
                     configuration.rx1_delay = super::del_to_delay_ms(payload.delay());
-                    self.uplink.add_mac_command(RXTimingSetupAnsCreator::new());
+                    push_answer(&mut self.uplink, answers_full, RXTimingSetupAnsCreator::new());
                 }
                 _ => (),
             }
         }
+    }
+}
+
+/// Queue `cmd` as an answer unless an earlier answer of this downlink already had to be dropped.
+fn push_answer<M: lorawan::maccommands::SerializableMacCommand>(
+    uplink: &mut uplink::Uplink,
+    answers_full: &mut bool,
+    cmd: M,
+) {
+    if !*answers_full && !uplink.add_mac_command(cmd) {
+        *answers_full = true;
     }
 }
 
